@@ -54,7 +54,13 @@ def check_case(case):
     notused = case.get('notused', [])
     out.classes = ['map:' + meta.get('file', '?')]
     out.key = text
-    o = observe.run_validator(text, ack=False, xml=True)
+    param = None
+    if case.get('simple_dtd'):
+        import pyx12.params
+        param = pyx12.params.params()
+        param.set('simple_dtd', case['simple_dtd'])
+        out.classes.append('simple_dtd-set')
+    o = observe.run_validator(text, ack=False, xml=True, param=param)
     if o.exc is not None:
         out.fail(core.exc_bucket(o.exc, 'validate'), core.exc_detail(o.exc))
         return out
@@ -222,6 +228,8 @@ def run_entry(entry, n, seed, acc, tier):
                     notused.append((loc[0], loc[1]))
         c = make_case(doc, dl, acc)
         c['notused'] = [list(x) for x in notused]
+        if ch.chance(.25):
+            c['simple_dtd'] = 'http://www.example.org/dtd/x12simple.dtd'     # documented run-time option: adds a DOCTYPE
         return c
 
     def chk(c):
